@@ -3,9 +3,9 @@
 // up to a depth bound (creation symbols canonicalised to the lowest free slot), checked after every step.
 #include "common.h"
 
-enum { Y_INIT, Y_CLEANUP, Y_NEWDOM, Y_NEWFOREST, Y_BUILD, Y_XOP, Y_CLEAR, Y_ITER, Y_DESTROYF, Y_DESTROYD, Y_USEDET };
+enum { Y_INIT, Y_CLEANUP, Y_NEWDOM, Y_NEWFOREST, Y_BUILD, Y_XOP, Y_CLEAR, Y_ITER, Y_DESTROYF, Y_DESTROYD, Y_USEDET, Y_DELITER };
 struct Sym { int t, a, b; };
-static const char* KN[3] = {"S:MTb:F","S:MTi:Q","R:MTb:I"};
+static const char* KN[4] = {"S:MTb:F","S:MTi:Q","R:MTb:I","S:EVpi:F"};
 static const char* SHN[2] = {"S3","S4"};
 static const char* HOW[6] = {"operand","result","evaluate","copy-assign","cardinality","iterate"};
 
@@ -20,6 +20,7 @@ static std::string sym_str(const Sym& y)
         case Y_XOP: snprintf(b,sizeof b,"XOP(r%d,r%d)",y.a,y.b); break;
         case Y_CLEAR: snprintf(b,sizeof b,"CLEAR(f%d)",y.a); break;
         case Y_ITER: snprintf(b,sizeof b,"ITER(r%d)",y.a); break;
+        case Y_DELITER: return "DELITER";
         case Y_DESTROYF: snprintf(b,sizeof b,"DESTROYFOREST(f%d)",y.a); break;
         case Y_DESTROYD: snprintf(b,sizeof b,"DESTROYDOM(d%d)",y.a); break;
         default: snprintf(b,sizeof b,"USEDETACHED(r%d,%s)",y.a,HOW[y.b]);
@@ -40,16 +41,16 @@ struct Model {
 static void enabled(const Model& M, std::vector<Sym>& out)
 {
     out.clear();
-    if (!M.up) { out.push_back({Y_INIT,0,0}); for (int r=0;r<3;r++) if (M.reg[r] && M.detached[r]) for (int h=0;h<6;h++) out.push_back({Y_USEDET,r,h}); return; }
+    if (!M.up) { out.push_back({Y_INIT,0,0}); if (M.it) out.push_back({Y_DELITER,0,0}); for (int r=0;r<3;r++) if (M.reg[r] && M.detached[r]) for (int h=0;h<6;h++) out.push_back({Y_USEDET,r,h}); return; }
     int fd=-1; for (int i=0;i<2;i++) if (!M.dom[i]) { fd=i; break; }
     if (fd>=0) for (int s=0;s<2;s++) out.push_back({Y_NEWDOM,s,0});
     int ff=-1; for (int i=0;i<3;i++) if (!M.F[i]) { ff=i; break; }
-    if (ff>=0) for (int d=0;d<2;d++) if (M.dom[d]) for (int k=0;k<3;k++) out.push_back({Y_NEWFOREST,d,k});
+    if (ff>=0) for (int d=0;d<2;d++) if (M.dom[d]) for (int k=0;k<4;k++) out.push_back({Y_NEWFOREST,d,k});
     int fr=-1; for (int i=0;i<3;i++) if (!M.reg[i]) { fr=i; break; }
     for (int f=0;f<3;f++) if (M.F[f]) { if (fr>=0) out.push_back({Y_BUILD,fr,f}); }
     for (int a=0;a<3;a++) for (int b=0;b<3;b++) if (a!=b && M.reg[a] && M.reg[b] && !M.detached[a] && !M.detached[b] && M.rf[a]!=M.rf[b] && M.fdom[M.rf[a]]==M.fdom[M.rf[b]] && (M.rkind[a]==2)==(M.rkind[b]==2)) out.push_back({Y_XOP,a,b});
     for (int f=0;f<3;f++) if (M.F[f]) out.push_back({Y_CLEAR,f,0});
-    if (!M.it) for (int r=0;r<3;r++) if (M.reg[r] && !M.detached[r]) out.push_back({Y_ITER,r,0});
+    if (!M.it) { for (int r=0;r<3;r++) if (M.reg[r] && !M.detached[r]) out.push_back({Y_ITER,r,0}); } else out.push_back({Y_DELITER,0,0});
     for (int f=0;f<3;f++) if (M.F[f]) out.push_back({Y_DESTROYF,f,0});
     for (int d=0;d<2;d++) if (M.dom[d]) out.push_back({Y_DESTROYD,d,0});
     for (int r=0;r<3;r++) if (M.reg[r] && M.detached[r]) for (int h=0;h<6;h++) out.push_back({Y_USEDET,r,h});
@@ -103,7 +104,7 @@ static void exec(const std::vector<Sym>& hist)
         switch (y.t) {
             case Y_INIT: lib_init(); M.up=true; M.lastfid=0; break;
             case Y_CLEANUP:
-                if (M.it) { delete M.it; M.it=nullptr; M.itreg=-1; }
+                // an iterator may outlive the library instance; only its destruction (DELITER) is exercised afterwards
                 lib_done(); M.up=false;
                 for (int r=0;r<3;r++) if (M.reg[r]) M.detached[r]=true;
                 for (int f=0;f<3;f++) { M.F[f]=nullptr; M.fdom[f]=-1; } for (int d=0;d<2;d++) M.dom[d]=nullptr;
@@ -126,11 +127,12 @@ static void exec(const std::vector<Sym>& hist)
             case Y_ITER: M.it = new dd_edge::iterator(*M.reg[y.a]); M.itreg=y.a; if (*M.it) ++(*M.it); break;
             case Y_DESTROYF: { int f=y.a; forest::destroy(M.F[f]); M.F[f]=nullptr;
                 for (int r=0;r<3;r++) if (M.reg[r] && !M.detached[r] && M.rf[r]==f) M.detached[r]=true;
-                if (M.it && M.rf[M.itreg]==f) { /* iterator over a destroyed forest: only its destruction is exercised */ delete M.it; M.it=nullptr; M.itreg=-1; }
+                /* an iterator over a destroyed forest stays allocated: only its destruction (DELITER) is exercised later */
                 M.fdom[f]=-1; } break;
             case Y_DESTROYD: { int dd=y.a;
-                for (int f=0;f<3;f++) if (M.F[f] && M.fdom[f]==dd) { for (int r=0;r<3;r++) if (M.reg[r] && !M.detached[r] && M.rf[r]==f) M.detached[r]=true; if (M.it && M.rf[M.itreg]==f) { delete M.it; M.it=nullptr; M.itreg=-1; } M.F[f]=nullptr; M.fdom[f]=-1; }
+                for (int f=0;f<3;f++) if (M.F[f] && M.fdom[f]==dd) { for (int r=0;r<3;r++) if (M.reg[r] && !M.detached[r] && M.rf[r]==f) M.detached[r]=true; M.F[f]=nullptr; M.fdom[f]=-1; }
                 domain::destroy(M.dom[dd]); M.dom[dd]=nullptr; } break;
+            case Y_DELITER: delete M.it; M.it=nullptr; M.itreg=-1; break;
             case Y_USEDET: { int r=y.a; bool threw=false; dd_edge& e=*M.reg[r];
                 static const std::set<int> OK = {error::FOREST_MISMATCH, error::NOT_IMPLEMENTED, error::INVALID_OPERATION, error::DOMAIN_MISMATCH, error::TYPE_MISMATCH, error::UNINITIALIZED, error::UNKNOWN_OPERATION};
                 try {
@@ -174,6 +176,7 @@ static void list_units(const std::string& tier0)
     // then every continuation up to the depth; prefix=1: two set forests (bool, int), prefix=2: in the larger shape
     int pd = th ? (asan ? 5 : 6) : (asan ? 4 : 5);
     for (int p=1;p<=2;p++) for (int s=0;s<8;s++) printf("prefix=%d,depth=%d,slice=%d,slices=8\n", p, pd, s);
+    for (int s=0;s<4;s++) printf("prefix=3,depth=%d,slice=%d,slices=4\n", pd-1, s);
 }
 
 static void run_unit(const std::map<std::string,std::string>& spec)
@@ -187,13 +190,14 @@ static void run_unit(const std::map<std::string,std::string>& spec)
     auto apply_model = [](Model M, const Sym& y)->Model {
         switch (y.t) {
             case Y_INIT: M.up=true; break;
-            case Y_CLEANUP: M.up=false; for (int r=0;r<3;r++) if (M.reg[r]) M.detached[r]=true; for (int f=0;f<3;f++) { M.F[f]=nullptr; M.fdom[f]=-1; } for (int d=0;d<2;d++) M.dom[d]=nullptr; M.it=nullptr; break;
+            case Y_CLEANUP: M.up=false; for (int r=0;r<3;r++) if (M.reg[r]) M.detached[r]=true; for (int f=0;f<3;f++) { M.F[f]=nullptr; M.fdom[f]=-1; } for (int d=0;d<2;d++) M.dom[d]=nullptr; break;
+            case Y_DELITER: M.it=nullptr; M.itreg=-1; break;
             case Y_NEWDOM: { int i=M.dom[0]?1:0; M.dom[i]=(domain*)1; M.dshape[i]=y.a; } break;
             case Y_NEWFOREST: { int i=0; while (M.F[i]) ++i; M.F[i]=(forest*)1; M.fdom[i]=y.a; M.fkind[i]=y.b; } break;
             case Y_BUILD: M.reg[y.a]=(dd_edge*)1; M.rf[y.a]=y.b; M.detached[y.a]=false; M.rkind[y.a]=M.fkind[y.b]; break;
             case Y_ITER: M.it=(dd_edge::iterator*)1; M.itreg=y.a; break;
-            case Y_DESTROYF: for (int r=0;r<3;r++) if (M.reg[r] && !M.detached[r] && M.rf[r]==y.a) M.detached[r]=true; if (M.it && M.rf[M.itreg]==y.a) M.it=nullptr; M.F[y.a]=nullptr; M.fdom[y.a]=-1; break;
-            case Y_DESTROYD: for (int f=0;f<3;f++) if (M.F[f] && M.fdom[f]==y.a) { for (int r=0;r<3;r++) if (M.reg[r] && !M.detached[r] && M.rf[r]==f) M.detached[r]=true; if (M.it && M.rf[M.itreg]==f) M.it=nullptr; M.F[f]=nullptr; M.fdom[f]=-1; } M.dom[y.a]=nullptr; break;
+            case Y_DESTROYF: for (int r=0;r<3;r++) if (M.reg[r] && !M.detached[r] && M.rf[r]==y.a) M.detached[r]=true; M.F[y.a]=nullptr; M.fdom[y.a]=-1; break;
+            case Y_DESTROYD: for (int f=0;f<3;f++) if (M.F[f] && M.fdom[f]==y.a) { for (int r=0;r<3;r++) if (M.reg[r] && !M.detached[r] && M.rf[r]==f) M.detached[r]=true; M.F[f]=nullptr; M.fdom[f]=-1; } M.dom[y.a]=nullptr; break;
             default: break;
         }
         return M;
@@ -214,7 +218,10 @@ static void run_unit(const std::map<std::string,std::string>& spec)
     int prefix=(int)spec_int(spec,"prefix",0);
     if (prefix) {
         int sh = prefix==2 ? 1 : 0;
-        for (const Sym& y : std::vector<Sym>{{Y_INIT,0,0},{Y_NEWDOM,sh,0},{Y_NEWFOREST,0,0},{Y_NEWFOREST,0,1},{Y_BUILD,0,0},{Y_BUILD,1,1}}) { hist.push_back(y); M0 = apply_model(M0,y); }
+        std::vector<Sym> pre{{Y_INIT,0,0},{Y_NEWDOM,sh,0},{Y_NEWFOREST,0,0},{Y_NEWFOREST,0,1},{Y_BUILD,0,0},{Y_BUILD,1,1}};
+        // prefix=3: an iterator over an integer set forest outlives cleanup(); a second library instance and a domain exist again
+        if (prefix==3) pre = {{Y_INIT,0,0},{Y_NEWDOM,0,0},{Y_NEWFOREST,0,1},{Y_BUILD,0,0},{Y_ITER,0,0},{Y_CLEANUP,0,0},{Y_INIT,0,0},{Y_NEWDOM,0,0}};
+        for (const Sym& y : pre) { hist.push_back(y); M0 = apply_model(M0,y); }
         depth += (int)hist.size();
     }
     dfs(M0);
